@@ -150,12 +150,10 @@ def electrostatic_potential(
 
     # silence warning for dividing by zero
     old_settings = np.seterr(divide="ignore")
-    external_potential = (
-        nuclear_charges[None, :]
-        / np.sum((points[:, :, None] - nuclear_coords.T[None, :, :]) ** 2, axis=1) ** 0.5
-    )
-    # zero out potentials of elements that are too close to the nucleus
-    external_potential[external_potential > 1.0 / np.array(threshold_dist)] = 0
+    dist = np.sum((points[:, :, None] - nuclear_coords.T[None, :, :]) ** 2, axis=1) ** 0.5
+    external_potential = nuclear_charges[None, :] / dist
+    # zero out potentials of nuclei that are too close to the point
+    external_potential[dist < threshold_dist] = 0
     # restore old settings
     np.seterr(**old_settings)
     # sum over potentials for each dimension
